@@ -28,6 +28,8 @@ type OblResult struct {
 	Known    string  `json:"known,omitempty"`
 	Goal     string  `json:"-"`
 	Lemma    *Lemma  `json:"-"`
+	Renamed  string  `json:"renamed_from,omitempty"`
+	Order    int     `json:"-"`
 }
 
 type lemmaCtx struct {
@@ -217,9 +219,11 @@ func ProveLemmaCtx(prog *Prog, specs *Specs, l *Lemma, tier string, c *checkCtx)
 		x.sc.Assert(not(c))
 	}
 	var goals []string
+	x.polarity = 1
 	for _, e := range l.Ensures {
 		goals = append(goals, x.evalBool(env, e))
 	}
+	x.polarity = 0
 	var splitTerms [][]string
 	for _, alts := range l.Splits {
 		var ts []string
@@ -237,6 +241,21 @@ func ProveLemmaCtx(prog *Prog, specs *Specs, l *Lemma, tier string, c *checkCtx)
 			for _, s := range x.flatten(x.evalSrc(env, e).V) {
 				showTerms = append(showTerms, s.T)
 			}
+		}
+	}
+	// Universally quantified sub-formulas of a goal are skolemised by hand: proving the goal
+	// with the instance at a fresh constant (for every value of it) implies the goal, and
+	// the constant becomes an instantiation point for the summaries.
+	for gi := range goals {
+		for _, q := range x.quants {
+			if q.pol != 1 || q.lo == "" || !strings.HasPrefix(q.guard, "(forall ") || !strings.Contains(goals[gi], q.guard) {
+				continue
+			}
+			sk := x.sc.Fresh("sk", SInt)
+			inst := fmt.Sprintf("(=> (and (<= %s %s) (< %s %s)) (%s %s))", q.lo, sk, sk, q.hi, q.fn, sk)
+			goals[gi] = strings.ReplaceAll(goals[gi], q.guard, inst)
+			x.witnesses = append(x.witnesses, sk)
+			x.witClass[sk] = "*"
 		}
 	}
 	// axioms for opaque functions used (closure)
@@ -277,10 +296,14 @@ func ProveLemmaCtx(prog *Prog, specs *Specs, l *Lemma, tier string, c *checkCtx)
 		for _, q := range x.quants {
 			var points []string
 			for _, w := range x.witnesses {
-				if q.class != "" && x.witClass[w] != q.class {
+				if q.class != "" && x.witClass[w] != q.class && x.witClass[w] != "*" {
 					continue
 				}
 				points = append(points, w)
+				if x.witClass[w] == "*" {
+					// goal skolems: range loops count from -1, so the neighbours matter too
+					points = append(points, "(- "+w+" 1)", "(+ "+w+" 1)")
+				}
 			}
 			if q.hi != "" && isAtom(q.hi) {
 				points = append(points, "(- "+q.hi+" 1)")
@@ -398,6 +421,18 @@ func ProveLemmaCtx(prog *Prog, specs *Specs, l *Lemma, tier string, c *checkCtx)
 	}
 	wg.Wait()
 	res = append(res, out...)
+	// read-frame obligations: the symbolic execution of the unfolded functions touched no such field
+	for _, f := range l.NoRead {
+		key := "H:" + specs.PkgName + "." + f
+		st := "proved"
+		detail := ""
+		for k := range x.touched {
+			if k == key || strings.HasPrefix(k, key+"#") || strings.HasPrefix(k, key+".") {
+				st, detail = "failed", "the functions under this lemma read "+k
+			}
+		}
+		res = append(res, OblResult{Name: fmt.Sprintf("lemma:%s.%s#noread:%s", specs.PkgName, l.Name, f), Status: st, Detail: detail, Kind: "read-frame", Site: "does not read " + f, Func: strings.Join(l.Unfold, ","), Lemma: l, Solver: "frame (syntactic over the executed SSA)"})
+	}
 	// one vacuity probe per lemma
 	if len(goals) > 0 {
 		r := Solve(name(0)+".cover", base, 10, false, false)
@@ -449,7 +484,7 @@ func decide(name, q string, timeout int, thorough bool) OblResult {
 	ch := make(chan ans, 2)
 	fullq := q
 	q = instVariant(q)
-	if thorough {
+	if thorough || quantifiedGoal(fullq) {
 		q = fullq
 	}
 	go func() { ch <- ans{Solve(name, q, timeout, true, thorough), false} }()
@@ -539,4 +574,11 @@ func decideLight(name, q string, timeout int) OblResult {
 		or.Detail = "timeout"
 	}
 	return or
+}
+
+// quantifiedGoal reports whether the negated goal (last assertion) contains a quantifier;
+// the summary quantifiers are then kept so that the solver can instantiate them at its skolems.
+func quantifiedGoal(q string) bool {
+	i := strings.LastIndex(q, "(assert (not ")
+	return i >= 0 && (strings.Contains(q[i:], "(forall ") || strings.Contains(q[i:], "(exists "))
 }
